@@ -3,7 +3,7 @@
    Model: model/FuncAn.v (FunctionAnalyser; tied to /repo by the shared correspondence run of
    ./check C01|C02|C09|C17 on generated bodies).  Spec: spec/Occurs.v (`occs true body` = every access
    the body performs; `occs false body` = the same outside the positions of the listed finding classes). *)
-From RattrV Require Import Base Str PyAst Naming Spell Context FuncAn Occurs FaCheck FaSpecCheck FaFacts FaMono C01Proofs.
+From RattrV Require Import Base Str PyAst Naming Spell Context FuncAn Occurs FaCheck FaSpecCheck FaFacts FaMono C01Proofs C01Complete.
 Open Scope string_scope.
 Open Scope list_scope.
 
@@ -47,3 +47,28 @@ Example C01_no_finding_position_all_reported :
   /\ forallb (reported_in (snd (run sample_body))) (flat_map (occs true) sample_body) = true
   /\ List.length (flat_map (occs true) sample_body) = 13.
 Proof. exact sample_all_reported. Qed.
+
+(* PROVED for every expression of the call-free load fragment, of any depth: names, attribute / subscript / starred
+   chains over them, and ANY node class without a dedicated visitor (binary, boolean, comparison, conditional, unary
+   operators, f-strings, expression statements, if / while / assert / raise bodies, ...), tuples, lists, sets, dicts -
+   the visit ends normally and reports every access `occs false` lists, all of them gets *)
+Theorem C01_call_free_loads_are_complete :
+  forall mexists modulename n, CF n -> forall s,
+    fst (visit mexists modulename n s) = Ok tt
+    /\ forall nm, In (AGet, nm) (occs false n) -> exists b, rmem (nm, b) (v_gets (snd (visit mexists modulename n s))) = true.
+Proof. intros mexists modulename n Hcf s. exact (call_free_loads_are_complete mexists modulename n Hcf s). Qed.
+Theorem C01_call_free_occurrences_are_gets :
+  forall n, CF n -> forall o, In o (occs false n) -> fst o = AGet.
+Proof. exact cf_occs_are_gets. Qed.
+Print Assumptions C01_call_free_loads_are_complete.
+
+(* non-vacuity: (a.b + c[0]) * -d.e, written with the generic node class *)
+Definition cf_example : node :=
+  Other "BinOp" [] [Other "BinOp" [] [EAttr (EName "a" Load (1, 1)) "b" Load (1, 1); ESub (EName "c" Load (1, 7)) (EConst None) Load (1, 7)];
+                    Other "UnaryOp" [] [EAttr (EName "d" Load (1, 16)) "e" Load (1, 16)]].
+Example C01_fragment_is_inhabited :
+  CF cf_example /\ map snd (occs false cf_example) = ["a.b"; "c[]"; "d.e"].
+Proof.
+  split; [|reflexivity].
+  repeat (constructor; simpl; try exact I; try reflexivity).
+Qed.
